@@ -35,6 +35,8 @@ Record pstate := {
   input : list Z;              (* token types still to be returned by ReadToken *)
   pos : nat;                   (* number of tokens returned so far *)
   trace : list event;          (* most recent first *)
+  shifts : Z;                  (* _shifts: input tokens shifted so far *)
+  rec_shifts : Z;              (* _recoverShifts: value of shifts at the last successful recovery, -1 = never *)
 }.
 
 Section Runtime.
@@ -53,18 +55,27 @@ Definition lex_read (s : pstate) : (Z * value) * pstate :=
   | ty :: rest =>
     ((ty, VTok ty (pos s)),
      {| stack := stack s; la := la s; lasym := lasym s; qla := qla s; qlasym := qlasym s;
-        input := rest; pos := S (pos s); trace := trace s |})
+        input := rest; pos := S (pos s); trace := trace s;
+        shifts := shifts s; rec_shifts := rec_shifts s |})
   end.
 
 Definition set_la (s : pstate) (l : Z) (sym : value) (q : Z) (qsym : value) : pstate :=
   {| stack := stack s; la := l; lasym := sym; qla := q; qlasym := qsym;
-     input := input s; pos := pos s; trace := trace s |}.
+     input := input s; pos := pos s; trace := trace s;
+     shifts := shifts s; rec_shifts := rec_shifts s |}.
 Definition set_stack (s : pstate) (st : list sitem) : pstate :=
   {| stack := st; la := la s; lasym := lasym s; qla := qla s; qlasym := qlasym s;
-     input := input s; pos := pos s; trace := trace s |}.
+     input := input s; pos := pos s; trace := trace s;
+     shifts := shifts s; rec_shifts := rec_shifts s |}.
 Definition add_event (s : pstate) (e : event) : pstate :=
   {| stack := stack s; la := la s; lasym := lasym s; qla := qla s; qlasym := qlasym s;
-     input := input s; pos := pos s; trace := e :: trace s |}.
+     input := input s; pos := pos s; trace := e :: trace s;
+     shifts := shifts s; rec_shifts := rec_shifts s |}.
+
+Definition set_shifts (s : pstate) (n r : Z) : pstate :=
+  {| stack := stack s; la := la s; lasym := lasym s; qla := qla s; qlasym := qlasym s;
+     input := input s; pos := pos s; trace := trace s;
+     shifts := n; rec_shifts := r |}.
 
 (* _makeError: needs _lasym to be a Token; Expected = keys of the top row *)
 Definition make_error (s : pstate) : option value :=
@@ -275,7 +286,8 @@ Fixpoint recover_outer (fuel : nat) (errsym : value) (s : pstate) : outcome :=
     | PCrash => Crash
     | PFuel => Fuel
     | PFound st' e =>
-      Continue (set_la (set_stack s st') ERROR e (la s) (lasym s))
+      (* success: remember how many tokens had been shifted *)
+      Continue (set_shifts (set_la (set_stack s st') ERROR e (la s) (lasym s)) (shifts s) (shifts s))
     | PExhausted e =>
       if la s =? EOF then Reject (set_stack s [])
       else
@@ -285,6 +297,19 @@ Fixpoint recover_outer (fuel : nat) (errsym : value) (s : pstate) : outcome :=
         end
     end
   end.
+
+(* if p._shifts == p._recoverShifts { if EOF return false; readToken; skip ERRORs }:
+   a new error before any token was shifted since the last recovery drops the
+   offending lookahead, so that recovery always makes progress *)
+Definition drop_if_stuck (fuel : nat) (s : pstate) : outcome :=
+  if shifts s =? rec_shifts s then
+    if la s =? EOF then Reject s
+    else
+      match read_token s with
+      | None => Crash
+      | Some s' => skip_errors fuel s'
+      end
+  else Continue s.
 
 Definition recover (fuel : nat) (s : pstate) : outcome :=
   let errsym :=
@@ -296,7 +321,11 @@ Definition recover (fuel : nat) (s : pstate) : outcome :=
   | None => Crash
   | Some e =>
     match skip_errors fuel s with
-    | Continue s1 => recover_outer fuel e s1
+    | Continue s1 =>
+      match drop_if_stuck fuel s1 with
+      | Continue s2 => recover_outer fuel e s2
+      | o => o
+      end
     | o => o
     end
   end.
@@ -329,7 +358,8 @@ Definition pstep (fuel : nat) (s : pstate) : outcome :=
         match bnd with
         | None => Crash
         | Some b =>
-          let s1 := set_stack s ({| i_state := action; i_sym := lasym s; i_bounds := b |} :: stack s) in
+          let s0 := set_stack s ({| i_state := action; i_sym := lasym s; i_bounds := b |} :: stack s) in
+          let s1 := if la s =? ERROR then s0 else set_shifts s0 (shifts s + 1) (rec_shifts s) in
           match read_token s1 with
           | None => Crash
           | Some s2 => Continue s2
@@ -389,7 +419,7 @@ Fixpoint ploop (fuel : nat) (s : pstate) : outcome :=
 Definition init_state (w : list Z) : pstate :=
   {| stack := [{| i_state := 0; i_sym := VNil; i_bounds := no_bounds |}];
      la := 0; lasym := VNil; qla := -1; qlasym := VNil;
-     input := w; pos := O; trace := [] |}.
+     input := w; pos := O; trace := []; shifts := 0; rec_shifts := -1 |}.
 
 (* parse(lex): result and the events in call order *)
 Definition parse (fuel : nat) (w : list Z) : outcome :=
